@@ -90,3 +90,43 @@ package errors
 
 //@ func (ErrorCode).Itoa()
 //@   pure
+
+// ---- error construction (property C07: templates and argument lists agree) ----
+
+//@ interface Err.Code(self)
+//@   requires errWF(self)
+//@   pure
+//@   ensures result == errCodeOf(self)
+
+//@ interface Err.Error(self)
+//@   requires errWF(self)
+//@   pure
+
+//@ func Format(code, args)
+//@   props C07
+//@   requires errArity(code) == len(args)
+//@   pure
+//@   ensures result.code == code && result.args == args
+
+//@ func (Errorf).Code()
+//@   props C07
+//@   implements Err.Code
+
+//@ func (ErrorCode).Code()
+//@   props C07
+//@   implements Err.Code
+
+//@ func (Errorf).Error()
+//@   props C07
+//@   implements Err.Error
+
+//@ func (ErrorCode).Error()
+//@   props C07
+//@   implements Err.Error
+
+//@ func NewDocumentError(file, err)
+//@   props C07 C17
+//@   requires errWF(err)
+//@   pure
+//@   ensures result.code == errCodeOf(err) && result.file == file
+//@   ensures !result.hasIndex && result.index == 0 && !result.prepared && result.length == 0
